@@ -70,6 +70,10 @@ def _shuffle(rng, xs):
 
 
 def make_fs(cfg: dict, order_override=None) -> simfs.SimFS:
+    pkg = os.path.join(core.src_dir(), "schwifty")
+    for alias in (pkg, os.path.realpath(pkg)):
+        if alias not in simfs.ALIASES:
+            simfs.ALIASES.append(alias)
     fs = simfs.SimFS()
     for i, d in enumerate(("iban_registry", "bank_registry")):
         files = {n: c.encode("utf-8") for n, c in cfg["fs"][d].items()}
@@ -91,9 +95,16 @@ def registry_code():
 
 def fresh_registry_module():
     code, path = registry_code()
+    if "simreg" not in sys.modules:
+        parent = types.ModuleType("simreg")
+        parent.__path__ = []  # a package
+        parent.__file__ = os.path.join(os.path.dirname(path), "__init__.py")
+        sys.modules["simreg"] = parent
     mod = types.ModuleType("simreg.registry")
     mod.__package__ = "simreg"
     mod.__file__ = path
+    sys.modules["simreg.registry"] = mod  # dataclasses, pickle, typing look the defining module up by name
+    sys.modules["simreg"].registry = mod
     exec(code, mod.__dict__)  # noqa: S102 - the tree under test
     return mod
 
@@ -134,6 +145,8 @@ def run_module_child(cfg: dict) -> dict:
                                 f"(simulated locale {cfg['fs']['locale']})", exc=type(e).__name__)
         return res
     res["fs_events"] = len(fs.events)
+    if not any(e[0] == "open" for e in fs.events):
+        raise core.HarnessError("storage seam bypassed: the loader returned data without opening any simulated file")
     res["probes"]["default_encoding_open"] = fs.default_encoding_opens
     d = regmodel.first_diff(want_iban, regmodel.strip_regex(got_iban))
     if d:
@@ -249,6 +262,8 @@ def run_fault_child(cfg: dict) -> dict:
     res["fired"] = fs.fault_fired
     if fs.fault_fired is None:
         res["probes"]["fault_not_reached"] = 1
+    if returned is not None and not any(e[0] == "open" for e in fs.events):
+        raise core.HarnessError("storage seam bypassed: the loader returned data without opening any simulated file")
     if returned is not None:
         d = differs(name, returned)
         if d:
@@ -323,6 +338,9 @@ def run_e2e_child(cfg: dict) -> dict:
     from schwifty import exceptions, registry
 
     IBAN, BIC, BBAN = schwifty.IBAN, schwifty.BIC, schwifty.BBAN
+    registry.get("iban"), registry.get("bank")  # a lazily loading tree reads the files here at the latest
+    if not any(e[0] == "open" for e in fs.events):
+        raise core.HarnessError("storage seam bypassed: the package loaded its registries without opening any simulated file")
     res["probes"]["default_encoding_open"] = fs.default_encoding_opens
     got_iban = regmodel.strip_regex(registry.get("iban"))
     d = regmodel.first_diff(want_iban, got_iban)
